@@ -16,6 +16,8 @@ var verifC06Tables = [][]verifRouteDef{
 	{{"/a[/{v}]", []string{"GET"}}, {"/a", []string{"POST"}}},
 	{{"/a", verifAllMethods}, {"/{v}", []string{"GET"}}},
 	{{"/x{v}", []string{"GET"}}, {"/xa", []string{"OPTIONS"}}, {"/*", []string{"HEAD"}}},
+	{{`/a/{v:\d+}`, []string{"PUT"}}, {"/{v}/{w}", []string{"PUT"}}, {"/a/{v}", []string{"DELETE"}}},
+	{{`/a/{v:\d+}`, []string{"POST", "PUT"}}, {"/{v}/b", []string{"POST"}}, {"/{all}", []string{"HEAD"}}},
 	{},
 }
 
